@@ -1229,10 +1229,12 @@ fn gen_syn(rng: &mut Rng) -> Vec<String> {
     build_case(&bin, &format!("syn-{kind} {skind}"), u32c(start), size, cont)
 }
 
-/// Excluded point of `C20_read_no_panic` / `C20_query` (hypothesis `img.base + u32max ≤ u64max`): an object whose
-/// relative-address base is within 4 GiB of 2^64, so that `image_base + start_address` can overflow `u64`
-/// (binary_image.rs:247). Only generated when `VERIF_C20_EXCLUDED` is set; the recorded instances live in
-/// `corpus/C20/excluded-hibase.ops.pending` (see notes/C20.md).
+/// Former excluded point of `C20_read_no_panic` / `C20_query` (their hypothesis `img.base + u32max ≤ u64max` is gone
+/// since fix 37c4c2d8; the theorem is now `C20_read_no_panic_any_base`): an object whose relative-address base is
+/// within 4 GiB of 2^64, so that `image_base + start_address` overflowed `u64` in `read_bytes_at_relative_address`
+/// before the fix (`checked_add` now: `AddressNotFound`). Random instances are only generated when
+/// `VERIF_C20_EXCLUDED` is set; the recorded instances live in `corpus/C20/excluded-hibase.ops` and run with the
+/// corpus on every check (see notes/C20.md).
 fn excluded_point(rng: &mut Rng) -> Vec<String> {
     let below = *rng.pick(&[0x10000u64, 0x1000, 0x7f00_0000, 0xffff_0000]);
     let vbase = 0u64.wrapping_sub(below);
